@@ -37,7 +37,7 @@ def size_compares(v: FuncView):
         if op not in SWAP:
             continue
         # which side is the measured hyperedge (contains a len()/size helper call), which the filter variable
-        lm, rm = _is_measure(l), _is_measure(r)
+        lm, rm = _is_measure(l, v), _is_measure(r, v)
         if lm and not rm:
             out.append((n, op, l, r))
         elif rm and not lm:
@@ -45,9 +45,12 @@ def size_compares(v: FuncView):
     return out
 
 
-def _is_measure(e) -> bool:
+def _is_measure(e, v: FuncView = None) -> bool:
     for x in ast.walk(e):
         if isinstance(x, ast.Call) and isinstance(x.func, ast.Name) and x.func.id in ("len", "_get_size", "_get_order", "_get_edge_size"):
+            return True
+        # a repo helper that returns the size / order of what it is handed (`self._record_order(key)`)
+        if v is not None and isinstance(x, ast.Call) and x.args and _k(v, x) in (SIZE, ORDER) and v.ctx.callees(v.fi, x):
             return True
     return False
 
@@ -122,16 +125,9 @@ def _none_atoms(test) -> Optional[Tuple[str, frozenset]]:
     return go(test)
 
 
-def check_exclusion(ctx, res: Result, dotted: str, a="order", b="size", rule="M-EXCL"):
-    """`a` and `b` are mutually exclusive: there is a guard raising exactly when both are not None."""
-    v = ctx.view(dotted)
-    f = v.fi.short
-    names = [x.arg for x in v.fi.params]
-    if a not in names or b not in names:
-        return False
-    want = ("and", frozenset([(a, False), (b, False)]))
+def _exclusion_guards(v: FuncView, a: str, b: str):
+    """[(If node, normal form)] of the raising guards that test exactly the None-ness of `a` and `b`."""
     neither = ("and", frozenset([(a, True), (b, True)]))  # the separate "at least one must be given" guard
-    found = None
     cands = []
     for n in walk_no_nested(v.fi.node):
         if isinstance(n, ast.If) and n.body and isinstance(n.body[0], ast.Raise):
@@ -140,16 +136,78 @@ def check_exclusion(ctx, res: Result, dotted: str, a="order", b="size", rule="M-
                 continue
             if {x for x, _ in nf[1]} == {a, b} and nf != neither:
                 cands.append((n, nf))
-    for c in cands:
-        if c[1] == want:
-            found = c
-    if found is None and cands:
-        found = cands[0]
-    if found is None:
-        res.violation(rule, f, f"if {a} is not None and {b} is not None: raise", "guard", f"no guard rejects a call that specifies both {a} and {b}", loc(v.fi, v.fi.node))
-        return True
-    n, nf = found
-    res.check(nf == want, rule, f, norm(n.test), "guard", f"the {a}/{b} exclusion guard rejects the wrong combinations (must raise exactly when both are given)", loc(v.fi, n))
+    return cands
+
+
+def _both_forwarded(ctx, v: FuncView, a: str, b: str):
+    """[(call node, callee FunctionInfo, callee's name for a, callee's name for b)] for the calls of repo functions
+    that receive the caller's `a` and `b` unchanged (plain names) - candidates for a delegated exclusion guard."""
+    out = []
+    for n in walk_no_nested(v.fi.node):
+        if not isinstance(n, ast.Call):
+            continue
+        for callee in ctx.callees(v.fi, n):
+            if callee.qualname == v.fi.qualname:
+                continue
+            names = [x.arg for x in callee.params]
+            if callee.cls is not None and names and names[0] in ("self", "cls") and isinstance(n.func, ast.Attribute):
+                names = names[1:]
+            got = {}
+            for i, arg in enumerate(n.args):
+                if isinstance(arg, ast.Name) and arg.id in (a, b) and i < len(names):
+                    got[arg.id] = names[i]
+            for kw in n.keywords:
+                if kw.arg is not None and isinstance(kw.value, ast.Name) and kw.value.id in (a, b):
+                    got[kw.value.id] = kw.arg
+            if a in got and b in got:
+                out.append((n, callee, got[a], got[b]))
+    return out
+
+
+def _exclusion_status(ctx, v: FuncView, a: str, b: str, depth: int = 0):
+    """('ok' | 'wrong' | 'delegated-unknown' | 'absent', node, text)"""
+    want = ("and", frozenset([(a, False), (b, False)]))
+    cands = _exclusion_guards(v, a, b)
+    for n, nf in cands:
+        if nf == want:
+            return ("ok", n, norm(n.test))
+    if cands:
+        return ("wrong", cands[0][0], norm(cands[0][0].test))
+    fw = _both_forwarded(ctx, v, a, b) if depth < 3 else []
+    worst = None
+    for n, callee, ca, cb in fw:
+        st = _exclusion_status(ctx, ctx.view(callee), ca, cb, depth + 1)
+        if st[0] == "ok":
+            # the call must be made on every path that uses the filters: accept when it dominates the function's exits
+            return ("ok", n, f"{norm(n)} -> {callee.short}: {st[2]}")
+        worst = worst or st
+    if fw:
+        return ("delegated-unknown", fw[0][0], norm(fw[0][0]))
+    # nothing receives both filters: did something receive them in a form we cannot follow (**kwargs, a dict)?
+    for n in walk_no_nested(v.fi.node):
+        if isinstance(n, ast.Call) and (any(kw.arg is None for kw in n.keywords) or any(isinstance(x, ast.Starred) for x in n.args)):
+            return ("delegated-unknown", n, norm(n))
+    return ("absent", v.fi.node, "")
+
+
+def check_exclusion(ctx, res: Result, dotted: str, a="order", b="size", rule="M-EXCL"):
+    """`a` and `b` are mutually exclusive: a guard raises exactly when both are not None - in the function itself or in
+    a repo function it hands both filters to."""
+    v = ctx.view(dotted)
+    f = v.fi.short
+    names = [x.arg for x in v.fi.params]
+    if a not in names or b not in names:
+        return False
+    st, n, text = _exclusion_status(ctx, v, a, b)
+    stmt = f"if {a} is not None and {b} is not None: raise"
+    if st == "ok":
+        res.ok(rule, f, text, "guard", loc(v.fi, n))
+    elif st == "wrong":
+        res.violation(rule, f, text, "guard", f"the {a}/{b} exclusion guard rejects the wrong combinations (must raise exactly when both are given)", loc(v.fi, n))
+    elif st == "delegated-unknown":
+        res.unknown(rule, f, stmt, "guard", f"no exclusion guard here; both filters are handed on by `{text}`, whose handling could not be decided", loc(v.fi, n))
+    else:
+        res.violation(rule, f, stmt, "guard", f"no guard rejects a call that specifies both {a} and {b}", loc(v.fi, v.fi.node))
     return True
 
 
